@@ -487,13 +487,13 @@ impl Gen {
 
     /// Next operation given the model state
     pub fn next_op(&mut self, m: &Model, rng: &mut Rng) -> Op {
-        self.step += 1;
         let ws: Vec<u32> = self.enabled.iter().map(|x| x.1).collect();
         let kind = self.enabled[rng.weighted(&ws)].0;
         self.build(kind, m, rng)
     }
 
     pub fn build(&mut self, kind: &str, m: &Model, rng: &mut Rng) -> Op {
+        self.step += 1;
         let busy = m.busy_paths();
         // content mutators avoid files with a live write handle (conflicting writers are undefined)
         let avoid_busy = |p: String, me: &Gen, rng: &mut Rng| -> String {
